@@ -224,7 +224,7 @@ type Replay struct {
 }
 
 func replayDir(id string) string {
-	d := env("VERIF_REPLAYDIR", filepath.Join(env("VERIF_DIR", "/verif"), "replays", id))
+	d := env("VERIF_REPLAYDIR", filepath.Join(env("VERIF_DIR", "/verif"), "replays", id, "found"))
 	os.MkdirAll(d, 0o755)
 	return d
 }
